@@ -162,7 +162,7 @@ def aux_term(e: Dict[str, Any]) -> str:
     if e["op"][0] == "reclaim":
         return "AReclaimed"
     a = e.get("aux")
-    return {None: "ANone", "hit": "AHit", "miss": "AMiss", "direct": "ADirect"}.get(a, "ARefused")
+    return {None: "ANone", "hit": "AHit", "miss": "AMiss", "direct": "ADirect", "exec": "AExec"}.get(a, "ARefused")
 
 
 def history_stats(log: List[Dict[str, Any]]) -> Dict[str, int]:
